@@ -106,6 +106,20 @@ fn main() {
                 exit(2)
             }
         };
+        // a case recorded under the other build profile is replayed by the twin binary
+        if let Some(p) = rec["profile"].as_str() {
+            if p != engine::profile() {
+                let twin = engine::twin_binary(&engine::verif_root(), p);
+                let st = std::process::Command::new(&twin).arg(&id).arg("--replay").arg(&path).env("VERIF_ROOT", engine::verif_root()).status();
+                match st {
+                    Ok(s) => exit(s.code().unwrap_or(2)),
+                    Err(e) => {
+                        eprintln!("cannot run {}: {}", twin.display(), e);
+                        exit(2)
+                    }
+                }
+            }
+        }
         let clause = rec["clause"].as_str().unwrap_or("").to_string();
         let case = rec.get("case").cloned().unwrap_or(serde_json::Value::Null);
         let r = std::panic::catch_unwind(|| (prop.check_case)(&clause, &case));
@@ -130,7 +144,15 @@ fn main() {
     let mut run = Run::new(&id, tier, seed);
     run.sub = sub;
     run.write_evidence = write_evidence;
-    let r = std::panic::catch_unwind(std::panic::AssertUnwindSafe(|| (prop.run)(&mut run)));
+    let r = std::panic::catch_unwind(std::panic::AssertUnwindSafe(|| {
+        (prop.run)(&mut run)?;
+        if run.sub.is_none() && std::env::var("VERIF_SINGLE_PROFILE").is_err() {
+            // every property is also exercised in the other build profile
+            run.run_twin()?;
+            run.assume("both build profiles are executed: checked (overflow checks + debug assertions) and unchecked (neither); opt-level 0 is assumed equivalent");
+        }
+        Ok(())
+    }));
     match r {
         Ok(Ok(())) => {
             run.finish();
